@@ -717,3 +717,33 @@ Proof.
   destruct (dispatch_exact uid_of decl H2 t reg e HR Hs) as [A B].
   split; [exact A|split; [exact B|]]. exact (dispatch_perm uid_of decl H2 t reg e HR Hs).
 Qed.
+
+(* ---- the echo predicate ----------------------------------------------------------------------- *)
+Require Import Names NamesProofs.
+
+Lemma is_echo_spec cmd src nick :
+  is_echo cmd src nick = true <->
+  (cmd = PRIVMSG_cmd \/ cmd = NOTICE_cmd) /\ src <> [] /\ to_rfc1459 src = to_rfc1459 nick.
+Proof.
+  unfold is_echo. rewrite !Bool.andb_true_iff, Bool.orb_true_iff, !streqb_eq.
+  destruct src as [|b src]; simpl; split.
+  - intros [[_ H] _]. discriminate.
+  - intros [_ [H _]]. congruence.
+  - intros [[H _] E]. repeat split; auto. discriminate.
+  - intros [H [_ E]]. auto.
+Qed.
+
+(* it does not depend on the RFC1459 case of either nick *)
+Lemma is_echo_case cmd src nick src' nick' :
+  to_rfc1459 src = to_rfc1459 src' -> to_rfc1459 nick = to_rfc1459 nick' ->
+  is_echo cmd src nick = is_echo cmd src' nick'.
+Proof.
+  intros Es En. unfold is_echo. rewrite Es, En. f_equal. f_equal.
+  destruct src, src'; simpl in *; try reflexivity; discriminate.
+Qed.
+
+Example is_echo_ex :
+  is_echo (bs "NOTICE") (bs "ME{1}") (bs "me[1]") = true /\
+  is_echo (bs "PRIVMSG") (bs "me") (bs "Me0") = false /\
+  is_echo (bs "JOIN") (bs "me") (bs "me") = false.
+Proof. repeat split; reflexivity. Qed.
